@@ -64,6 +64,17 @@ func parseVal(raw json.RawMessage) (Val, error) {
 		v.Cps, err = cps(parts[1])
 	case "B":
 		err = json.Unmarshal(parts[1], &v.B)
+	case "ANYOF":
+		var es []json.RawMessage
+		if err = json.Unmarshal(parts[1], &es); err == nil {
+			for _, e := range es {
+				x, e2 := parseVal(e)
+				if e2 != nil {
+					return Val{}, e2
+				}
+				v.Elems = append(v.Elems, x)
+			}
+		}
 	case "N", "V", "ERR", "SKIP", "DIVERGE":
 	case "A":
 		var es []json.RawMessage
@@ -501,6 +512,13 @@ func (v Val) matches(o object.Object) (bool, string) {
 }
 
 func (v Val) String() string {
+	if v.Tag == "ANYOF" {
+		parts := []string{}
+		for _, e := range v.Elems {
+			parts = append(parts, e.String())
+		}
+		return "one of {" + strings.Join(parts, " | ") + "}"
+	}
 	switch v.Tag {
 	case "ERR", "SKIP", "DIVERGE":
 		return v.Tag
